@@ -231,4 +231,53 @@ Section WithH.
          | Ok (b, _) => Ok b
          | Err => Err | Panic => Panic | OutOfFuel => OutOfFuel
          end.
+
+  (* ---- proof generation at tree level: generate_proof_impl / pad_middles_for_proof_gen producing a
+     proof TREE; its serialisation is what the byte-level functions emit (MerkleCompleteProofs.s_proof_ser) ---- *)
+  Fixpoint pad_tree (fuel : nat) (lft rgt : bytes) (depth : N) : option ptree :=
+    match fuel with
+    | O => None
+    | S f =>
+        let left_bit := get_bit lft depth in
+        let right_bit := get_bit rgt depth in
+        if negb (Bool.eqb left_bit right_bit) then Some (PMid (PTerm lft) (PTerm rgt))
+        else if left_bit then
+          match pad_tree f lft rgt (u8_succ depth) with Some p => Some (PMid PEmpty p) | None => None end
+        else
+          match pad_tree f lft rgt (u8_succ depth) with Some p => Some (PMid p PEmpty) | None => None end
+    end.
+
+  Definition s_other_tree (t : stree) : ptree :=
+    match t with
+    | SEmpty _ => PEmpty
+    | SMid h _ _ | STrunc h => PTrunc h
+    | SLeaf h => PTerm h
+    end.
+
+  Fixpoint s_proof_tree (t : stree) (leaf : bytes) (depth : N) : outcome (bool * ptree) :=
+    match t with
+    | SEmpty _ => Ok (false, PEmpty)
+    | SLeaf h => Ok (bytes_eqb h leaf, PTerm h)
+    | STrunc _ => Err
+    | SMid _ l r =>
+        let descend :=
+          if get_bit leaf depth then
+            match s_proof_tree r leaf (u8_succ depth) with
+            | Ok (b, p) => Ok (b, PMid (s_other_tree l) p)
+            | e => e
+            end
+          else
+            match s_proof_tree l leaf (u8_succ depth) with
+            | Ok (b, p) => Ok (b, PMid p (s_other_tree r))
+            | e => e
+            end in
+        match l, r with
+        | SLeaf lh, SLeaf rh =>
+            match pad_tree 257 lh rh depth with
+            | Some p => Ok (bytes_eqb lh leaf || bytes_eqb rh leaf, p)
+            | None => OutOfFuel
+            end
+        | _, _ => descend
+        end
+    end.
 End WithH.
